@@ -251,6 +251,12 @@ func (s *Service) SchedulePeriodicJob(ctx context.Context,
 			case <-time.After(time.Until(runtime)):
 				if job.active.Load() {
 					s.log.Trace().Str("job", name).Time("scheduled", runtime).Msg("Already running; job not running")
+					// A run request has claimed the job and sends its signal under the same lock.  Serve it here:
+					// fetching the next runtime first would lose the requested run if there are no more instances.
+					<-job.runCh
+					monitorJobStartedOnSignal(class)
+					jobFunc(ctx)
+					job.active.Store(false)
 					continue
 				}
 				job.active.Store(true)
